@@ -406,7 +406,8 @@ def connected_components(edges, min_len=1, nodes=None, engine=None):
             graph.add_nodes_from(nodes)
         # a set has no order: return the nodes of every component in
         # increasing order, as the scipy engine does
-        return [sorted(i) for i in nx.connected_components(graph)]
+        # and honor `min_len` the same way the scipy engine does
+        return [sorted(i) for i in nx.connected_components(graph) if len(i) >= min_len]
 
     def components_csgraph():
         """
